@@ -919,7 +919,8 @@ class _DWorld:
         self.trace.append(("deliver", key[0], key[1], repr(msg)))
         target = key[1]
         who = target[len("_discovery_"):] if target.startswith("_discovery_") else None
-        self.step(who, lambda: self.comps[target].on_message(key[0], msg, 0), "deliver %s -> %s: %r" % (key[0], key[1], msg))
+        self.step(who, lambda: self.comps[target].on_message(key[0], msg, 0), "deliver %s -> %s: %r" % (key[0], key[1], msg),
+                  "handling-" + str(getattr(msg, "type", "?")))
 
     def run(self, policy, chooser=None, max_steps=400):
         n = 0
@@ -955,14 +956,14 @@ class _DWorld:
                 out[(kind, item)] = frozenset(d._replicas_data.get(item, ()))
         return out
 
-    def step(self, who, action, what):
+    def step(self, who, action, what, opname=None):
         env = self.env
         before = self.views(who) if who in self.disc else {}
         registered = {k: list(s["cbs"]) for k, s in self.subs.items() if k[0] == who}
         self.calls = []
         r = env.call(action)
         if isinstance(r, Raised):
-            self.raised = (what, r)
+            self.raised = (what, r, opname or what)
             return r
         if who not in self.disc or who in self.left:
             return r
@@ -974,6 +975,8 @@ class _DWorld:
                 got = [c for c in self.calls if c[1] == cbid]
                 exp = _expected_events(kind, item, old, new)
                 tag = self.region("cb", who, kind, item)
+                if kind == "agent" and new == _UNK and any(o for _, o in cbs):
+                    tag = "[agent-removed-while-a-one-shot-callback-is-registered]"
                 det = lambda: dict(step=what, agent=who, item=(kind, item), view_before=old, view_after=new,  # noqa
                                    callback=(cbid, "one-shot" if oneshot else "persistent"), calls=got, trace=self.trace[-14:])
                 if exp:
@@ -1010,12 +1013,12 @@ class _DWorld:
         self.alive.add(n)
         # Agent._on_start
         self.step(n, lambda: (d.register_computation(d.discovery_computation.name, n, "addr_" + n),
-                              d.register_agent(n, "addr_" + n)), "join %s" % n)
+                              d.register_agent(n, "addr_" + n)), "join %s" % n, "start")
 
     def leave(self, n):
         d = self.disc[n]
         # Agent._on_stop (the agent hosts no computation any more)
-        r = self.step(n, lambda: d.unregister_agent(n), "leave %s" % n)
+        r = self.step(n, lambda: d.unregister_agent(n), "leave %s" % n, "unregister_agent")
         self.alive.discard(n)
         self.left.add(n)
         for k, s in self.subs.items():
@@ -1095,7 +1098,9 @@ class _DOps:
             for x in live:
                 for c in p["comps"]:
                     if x in p.get("replicators", w.agents):
-                        known = _ask(w.dis, w.disc[x].computation_agent, c) != _UNK
+                        cs = w.subs.get((x, "computation", c))
+                        known = _ask(w.dis, w.disc[x].computation_agent, c) != _UNK and \
+                            (w.host.get(c) == x or bool(cs and cs["active"]))   # it hosts c or follows c
                         if x in w.replicas.get(c, ()):
                             out.append(("unreg_replica", x, c))
                         elif known:
@@ -1147,11 +1152,11 @@ class _DOps:
         elif name == "reg_comp":
             c = op[2]
             w.host[c] = x
-            w.step(x, lambda: d.register_computation(c, x, "addr_" + x), "%s registers %s" % (x, c))
+            w.step(x, lambda: d.register_computation(c, x, "addr_" + x), "%s registers %s" % (x, c), "register_computation")
         elif name == "unreg_comp":
             c = op[2]
             w.host[c] = None
-            w.step(x, lambda: d.unregister_computation(c, x), "%s unregisters %s" % (x, c))
+            w.step(x, lambda: d.unregister_computation(c, x), "%s unregisters %s" % (x, c), "unregister_computation")
             s = w.subs.get((x, "computation", c))
             if s:       # documented: the host cancels its own subscription before publishing the removal
                 s["lapsed"] = s.get("lapsed") or s["active"]
@@ -1160,11 +1165,11 @@ class _DOps:
         elif name == "reg_replica":
             c = op[2]
             w.replicas.setdefault(c, set()).add(x)
-            w.step(x, lambda: d.register_replica(c, x), "%s publishes a replica of %s" % (x, c))
+            w.step(x, lambda: d.register_replica(c, x), "%s publishes a replica of %s" % (x, c), "register_replica")
         elif name == "unreg_replica":
             c = op[2]
             w.replicas[c].discard(x)
-            w.step(x, lambda: d.unregister_replica(c, x), "%s withdraws its replica of %s" % (x, c))
+            w.step(x, lambda: d.unregister_replica(c, x), "%s withdraws its replica of %s" % (x, c), "unregister_replica")
         elif name == "sub":
             _, _, kind, item, cbkind = op
             s = w.subs.setdefault((x, kind, item), dict(active=False, cbs=[], fns={}))
@@ -1175,7 +1180,7 @@ class _DOps:
             fn = getattr(d, "subscribe_" + kind)
             if s.get("lapsed") and not s["active"]:
                 w.flag(x, kind, item, "resubscribed-after-an-unsubscription")
-            r = w.step(x, lambda: fn(item, cb, one_shot=(cbkind == "oneshot")), "%s subscribes to %s %s (%s)" % (x, kind, item, cbkind))
+            r = w.step(x, lambda: fn(item, cb, one_shot=(cbkind == "oneshot")), "%s subscribes to %s %s (%s)" % (x, kind, item, cbkind), "subscribe_" + kind)
             s["active"] = True
             if cb is not None:
                 s["cbs"].append((cb.cbid, cbkind == "oneshot"))
@@ -1196,7 +1201,7 @@ class _DOps:
             if kind == "replica" and not s["active"]:
                 w.flag(x, "computation", item, "after-unsubscribe_replica")
                 w.flag(x, "replica", item, "after-unsubscribe_replica")
-            w.step(x, lambda: fn(item, cb), "%s unsubscribes from %s %s (%s)" % (x, kind, item, cbid or "all"))
+            w.step(x, lambda: fn(item, cb), "%s unsubscribes from %s %s (%s)" % (x, kind, item, cbid or "all"), "unsubscribe_" + kind)
         else:
             raise ValueError(op)
         if w.raised is not None:
@@ -1226,7 +1231,8 @@ class _DOps:
                 and all(_msg_is(m, "subscribe_computation", computation=op[2], subscribe=False) for m in new[:-1])
             env.prove("discovery.unregister_computation.sends-the-matching-message-to-the-directory", ok, detail=det)
         elif name in ("reg_replica", "unreg_replica"):
-            env.prove("discovery.%s.sends-the-matching-message-to-the-directory" % ("register_replica" if name == "reg_replica" else "unregister_replica"),
+            env.prove("discovery.%s.sends-the-matching-message-to-the-directory%s" % ("register_replica" if name == "reg_replica" else "unregister_replica",
+                                                                                      self.w.region("op", x, "replica", op[2])),
                       len(new) == 1 and _msg_is(new[0], "publish_replica", replica=op[2], agent=x, publish=(name == "reg_replica")), detail=det)
         elif name in ("sub", "unsub"):
             kind, item = op[2], op[3]
@@ -1245,10 +1251,10 @@ class _DOps:
             env.prove("discovery.unregister_computation.local-view-updated", _ask(dis, d.computation_agent, op[2]) == _UNK)
         elif name == "reg_replica":
             r = _ask(dis, d.replica_agents, op[2])
-            env.prove("discovery.register_replica.local-view-updated", r != _UNK and x in r, detail=lambda: r)
+            env.prove("discovery.register_replica.local-view-updated" + w.region("op", x, "replica", op[2]), r != _UNK and x in r, detail=lambda: r)
         elif name == "unreg_replica":
             r = _ask(dis, d.replica_agents, op[2])
-            env.prove("discovery.unregister_replica.local-view-updated", r == _UNK or x not in r, detail=lambda: r)
+            env.prove("discovery.unregister_replica.local-view-updated" + w.region("op", x, "replica", op[2]), r == _UNK or x not in r, detail=lambda: r)
         elif name == "join":
             env.prove("discovery.start.local-view-updated", _ask(dis, d.agent_address, x) == "addr_" + x)
         elif name == "leave":
@@ -1313,8 +1319,9 @@ def _discovery_history(env, dis):
         else:
             w.run("lifo" if sched == "end-lifo" else "fifo")
     if w.raised is not None:
-        what, r = w.raised
-        env.prove("discovery.no-exception-in-an-operation-or-a-message-handler", False,
+        what, r, opname = w.raised
+        # one label per (what was being done, exception class): distinct defects stay distinct obligations
+        env.prove("discovery.no-exception-in-an-operation-or-a-message-handler[%s:%s]" % (opname, type(r.exc).__name__), False,
                   detail=lambda: "%s\n%s\ntrace=%r" % (what, r.tb, w.trace))
         return
     env.cover("drained")
